@@ -652,9 +652,27 @@ impl<'a> UserModel<'a> {
             };
         }
 
+        // The names local to the sheet are deleted with it: record them first so that
+        // undo recreates them once the sheet is back
+        let mut diff_list: Vec<Diff> = self
+            .model
+            .get_defined_name_list()
+            .into_iter()
+            .filter(|(_, scope, _)| *scope == Some(sheet))
+            .filter_map(|(name, scope, _)| {
+                let old_value = self.model.get_defined_name_formula(&name, scope).ok()?;
+                Some(Diff::DeleteDefinedName {
+                    name,
+                    scope,
+                    old_value,
+                })
+            })
+            .collect();
+
         self.model.delete_sheet(sheet)?;
         self.clamp_selected_sheet();
-        self.push_diff_list(vec![Diff::DeleteSheet { sheet, old_data }]);
+        diff_list.push(Diff::DeleteSheet { sheet, old_data });
+        self.push_diff_list(diff_list);
         Ok(())
     }
 
